@@ -55,7 +55,7 @@ def generate(rng, tier):
         kw["q"] = rng.choice([0, 0.1, 0.25, 0.5, 0.9, 1])
     if kind == "float":
         p = list(FLOATS)
-        if helper in ("min", "max", "first", "last", "nth", "count", "count_unique", "mode") and rng.random() < 0.3:
+        if helper in ("min", "max", "first", "last", "nth", "count", "count_unique", "mode", "sum", "mean", "median") and rng.random() < 0.3:
             p += [math.inf, -math.inf]
     elif kind == "int":
         p = list(INTS)
